@@ -27,6 +27,7 @@ type c10Case struct {
 	Init   int      `json:"init"`
 	Events []string `json:"events"`
 	Probe  string   `json:"probe,omitempty"`
+	Source string   `json:"source,omitempty"` // json-text part: a whole script, run on a point holding an ANSI-coloured message
 }
 
 // clonePoint: a structure-preserving deep copy of the whole object (unexported fields and sharing
@@ -349,7 +350,56 @@ func c10Step(n *c10Node, ev *c10Event) (*c10Node, string) {
 	return nn, ""
 }
 
+// c10JSONText: lists and maps are stored as their JSON text - for every kind of string an element, a
+// value or a map key may be (control characters, quotes, backslashes, DEL, non-ASCII and non-BMP
+// characters, the characters an HTML-safe encoder rewrites, line separators, text that is not valid
+// UTF-8), in flat and nested collections with and without floats; and the stored text decodes back to
+// the value.
+func c10JSONText(w *run.Worker) {
+	I, S, Id := rt.Int, rt.Str, rt.Id
+	strs := []string{"plain", "", "a\x1bb", "nul\x00", "q\"r", "back\\slash", "del\x7f", "é", "😀", "<>&", "sep\u2028\u2029", "tab\tnl\ncr\r", "bell\a\v\f\b", "bad\xff", "cut\xe6\x97"}
+	for si, s := range strs {
+		s := s
+		shapes := []nodeFn{
+			func() *rt.Node { return rt.List(S(s)) }, func() *rt.Node { return rt.List(S("lvl"), S(s)) }, func() *rt.Node { return rt.List(S(s), I(1), rt.Nil(), rt.Bool(true)) },
+			func() *rt.Node { return rt.List(S(s), rt.Float(1.5)) }, func() *rt.Node { return rt.List(rt.List(S(s))) }, func() *rt.Node { return rt.Map(S("k"), S(s)) },
+			func() *rt.Node { return rt.Map(S(s), I(1)) }, func() *rt.Node { return rt.Map(S("k"), rt.List(S(s), rt.Map(S(s), S(s)))) }, func() *rt.Node { return rt.List(rt.Id("message"), S(s)) },
+		}
+		for hi, sh := range shapes {
+			for mode := 0; mode < 2; mode++ {
+				if !w.Take() {
+					continue
+				}
+				var stmts []*rt.Node
+				if mode == 0 {
+					stmts = []*rt.Node{rt.Call("add_key", Id("k"), sh())}
+				} else {
+					stmts = []*rt.Node{rt.Assign("=", Id("k"), sh()), rt.Call("add_key", Id("k"))}
+				}
+				valid := si < len(strs)-2
+				if valid {
+					stmts = append(stmts, rt.Call("p", rt.Bin("==", rt.Call("load_json", rt.Call("get_key", Id("k"))), sh())))
+				}
+				p := &Prog{Scripts: map[string][]*rt.Node{"s.p": stmts}, Main: "s.p", Point: PointSpec{Meas: "m", Fields: map[string]any{"message": "m\x1b[31m\"red\""}}}
+				w.Eval()
+				v := Differential(p)
+				w.Outcome("json-text|" + v.Outcome)
+				if v.Skipped != "" {
+					w.Note("unspecified_cells_skipped", 1)
+					continue
+				}
+				if !v.OK {
+					w.Violate(fmt.Sprintf("C10:json-text:%s:shape%d", v.Key, hi), v.What, c10Case{Source: p.Sources()["s.p"]})
+				} else if valid && mode == 0 && len(v.Real.Trace) == 1 && v.Real.Trace[0] != "p(b:true)" {
+					w.Violate("C10:json-text:stored-text-does-not-decode-back", fmt.Sprintf("%s\ntrace %v point %s", p.Sources()["s.p"], v.Real.Trace, v.Real.Point), c10Case{Source: p.Sources()["s.p"]})
+				}
+			}
+		}
+	}
+}
+
 func c10Run(w *run.Worker) {
+	c10JSONText(w)
 	events := c10Events()
 	probes := c10LoadProbes()
 	inits := c10Inits()
@@ -487,6 +537,9 @@ func c10Replay(raw json.RawMessage) (bool, string) {
 	var c c10Case
 	if err := json.Unmarshal(raw, &c); err != nil {
 		return false, err.Error()
+	}
+	if c.Source != "" {
+		return replaySource(c.Source, PointSpec{Meas: "m", Fields: map[string]any{"message": "m\x1b[31m\"red\""}})
 	}
 	inits := c10Inits()
 	if c.Init < 0 || c.Init >= len(inits) {
